@@ -122,6 +122,42 @@ func declaredFuncs(repo string, overlay map[string][]byte) map[string]bool {
 	return out
 }
 
+// declaredFields: the fields of the module's named struct types, as "field:<dir>:<Type>.<name>". They are part of the
+// inventory so that a boolean option added later can be told from the ones the rules were calibrated on.
+func declaredFields(repo string, overlay map[string][]byte) map[string]bool {
+	out := map[string]bool{}
+	fset := token.NewFileSet()
+	for p, src := range moduleFiles(repo, overlay) {
+		f, err := parser.ParseFile(fset, p, src, parser.SkipObjectResolution)
+		if err != nil {
+			continue
+		}
+		rel, _ := filepath.Rel(repo, filepath.Dir(p))
+		for _, d := range f.Decls {
+			gd, ok := d.(*ast.GenDecl)
+			if !ok || gd.Tok != token.TYPE {
+				continue
+			}
+			for _, sp := range gd.Specs {
+				ts, ok := sp.(*ast.TypeSpec)
+				if !ok {
+					continue
+				}
+				st, ok := ts.Type.(*ast.StructType)
+				if !ok || st.Fields == nil {
+					continue
+				}
+				for _, fl := range st.Fields.List {
+					for _, n := range fl.Names {
+						out["field:"+rel+":"+ts.Name.Name+"."+n.Name] = true
+					}
+				}
+			}
+		}
+	}
+	return out
+}
+
 func loadInventory(path string) (map[string]bool, error) {
 	b, err := os.ReadFile(path)
 	if err != nil {
@@ -142,6 +178,10 @@ func writeInventory(repo, path string) error {
 	for k := range declaredFuncs(repo, nil) {
 		keys = append(keys, k)
 	}
+	for k := range declaredFields(repo, nil) {
+		keys = append(keys, k)
+	}
+	keys = append(keys, "field:inventory-has-fields")
 	sort.Strings(keys)
 	head := "# functions of /repo known to the rule tables (sa -write-inventory). Calls of functions that are NOT listed\n# here are inlined before the analysis (normalize.go). Regenerate after a fix: commit in /repo.\n"
 	return os.WriteFile(path, []byte(head+strings.Join(keys, "\n")+"\n"), 0o644)
